@@ -701,8 +701,17 @@ class FollowSend(SendFilter):
                 # gave must survive whatever NewFilterFS does when it adds the follow targets)
                 q = rng.choice(deep)
                 sf["include"] = [hx(q.split(b"/")[0]), hx(b"!" + q)]
-        return {"op": "sync", "src": {"kind": "mem" if rng.random() < 0.8 else "disk", "tree": tree}, "dst": [], "sfilter": sf,
-                "opt": {"notify": True, "cap": rng.choice([0, 4, 32]), "seed": rng.randrange(1 << 30)}}
+        op = {"op": "sync", "src": {"kind": "mem" if rng.random() < 0.8 else "disk", "tree": tree}, "dst": [], "sfilter": sf,
+              "opt": {"notify": True, "cap": rng.choice([0, 4, 32]), "seed": rng.randrange(1 << 30)}}
+        if rng.random() < 0.2 and "include" not in sf:
+            # a stack of two filters: the follow paths belong to the OUTER one and are resolved in the view of the inner one, which hides a
+            # link (or a directory) of the tree - what the inner filter hides stays hidden
+            esc = lambda c: b"".join(b"\\" + bytes([x]) if x in b"*?[]\\" else bytes([x]) for x in c)
+            links = [bytes.fromhex(e["p"]) for e in tree if e["t"] == "symlink"]
+            hide = rng.choice(links) if links and rng.random() < 0.7 else (rng.choice(paths) if paths else b"a")
+            op["sfilter"] = {"exclude": [hx(esc(hide))]} if rng.random() < 0.8 else {}
+            op["sfilter2"] = sf
+        return op
 
     def judge(self, op, impl, model):
         if isinstance(impl, dict) and "verif-timeout" in str(impl.get("err", "")):
@@ -718,7 +727,7 @@ class FollowSend(SendFilter):
         return v
 
     def nontrivial(self, op, impl, model):
-        return any(e["t"] == "symlink" for e in op["src"]["tree"]) and bool(op["sfilter"].get("follow"))
+        return any(e["t"] == "symlink" for e in op["src"]["tree"]) and bool(op["sfilter"].get("follow") or op.get("sfilter2", {}).get("follow"))
 
     matchers = {
         # F12 / F19: FollowLinks returned an include set that is not closed for these requests (see the followlinks suite): the transferred
